@@ -48,7 +48,7 @@ func main() {
 			"Definition viol := Eval vm_compute in spec_violations cases.\nPrint viol.\n" +
 			"Definition oof := Eval vm_compute in fuel_outs cases.\nPrint oof.\n",
 	}
-	st := &hx.Stats{Rule: "exhaustive strings over {/ . a} and {/ . a % C3A9(2 bytes)} up to a length bound + seeded random long inputs (lengths 100-300, straddling the 128-byte stack buffer) built from elements {'', '.', '..', 'ab', '...', '%2F', 'é', 'a.'}; non-trivial = input not already canonical (CleanPath(p) != p) or containing a dot element; distinct = distinct input strings"}
+	st := &hx.Stats{Rule: "exhaustive strings over {/ . a} and {/ . a % C3A9(2 bytes)} up to a length bound + seeded random long inputs (lengths 100-300, straddling the 128-byte stack buffer) built from elements {'', '.', '..', 'ab', '...', '%2F', 'é', 'a.'} + exhaustive sequences of <= N elements over {'', '.', '..', 'a', 'ab'} (rooted and not) + random sequences of 3-12 prefix-related names {a, ab, abc, b, .a, a., ...} + a sweep of every length 124..134, rooted and not rooted, with the first modification at the head / middle / tail / nowhere + random byte strings (any byte value); non-trivial = input not already canonical (CleanPath(p) != p) or containing a dot element; distinct = distinct input strings"}
 	seen := map[string]bool{}
 	nontrivial := 0
 	add := func(p, kind string) {
@@ -104,6 +104,103 @@ func main() {
 		}
 		add(s, "random-long")
 	}
+	// exhaustive element sequences: names sharing a prefix ("a", "ab") so that after a
+	// ".." the next element is compared with stale bytes of p (lazy buffer) or buf
+	lel := 4
+	if tier == "thorough" {
+		lel = 5
+	}
+	enumerate([]string{"\x00", "\x01", "\x02", "\x03", "\x04"}, lel, func(code string) {
+		names := []string{"", ".", "..", "a", "ab"}
+		parts := make([]string, len(code))
+		for i := range code {
+			parts[i] = names[code[i]]
+		}
+		body := strings.Join(parts, "/")
+		add("/"+body, "exh-elems")
+		add(body, "exh-elems")
+	})
+	// random short/medium paths over prefix-related names
+	npre := 1500
+	if tier == "thorough" {
+		npre = 20000
+	}
+	pnames := []string{"", ".", "..", "..", "a", "ab", "abc", "b", ".a", "a.", "..."}
+	for i := 0; i < npre; i++ {
+		k := rnd.Range(3, 12)
+		parts := make([]string, k)
+		for j := range parts {
+			parts[j] = hx.Pick(rnd, pnames)
+		}
+		body := strings.Join(parts, "/")
+		if rnd.Pct(80) {
+			body = "/" + body
+		}
+		add(body, "random-prefix-names")
+	}
+	// boundary sweep: every length 124..134 (bytes), rooted and not rooted, around
+	// the 128-byte stack buffer (not rooted: n+1 > 128; rooted: len(s) > cap(buf)
+	// on the first differing byte), with the first modification early, late or never
+	fill := func(n int, rooted bool) string {
+		var sb strings.Builder
+		if rooted {
+			sb.WriteByte('/')
+		}
+		for sb.Len() < n {
+			sb.WriteString(hx.Pick(rnd, []string{"a", "bc", "def", "x.y", "%41", "\xc3\xa9", "..z"}))
+			if sb.Len() < n {
+				sb.WriteByte('/')
+			}
+		}
+		return sb.String()[:n]
+	}
+	tails := []string{"", "/", "/.", "/..", "/../", "//", "/./", "/../..", "/a/../b", "/...", "/..a/"}
+	heads := []string{"", "/", "//", "/./", "/../", "./", "../", "a/", ".", ".."}
+	for n := 124; n <= 134; n++ {
+		for _, rooted := range []bool{true, false} {
+			for _, tl := range tails {
+				if len(tl) < n {
+					add(fill(n-len(tl), rooted)+tl, "boundary-tail")
+				}
+			}
+			for _, hd := range heads {
+				body := fill(n, true)
+				if len(hd) < n {
+					add(hd+body[len(hd):], "boundary-head")
+				}
+			}
+			// one modification in the middle
+			b := []byte(fill(n, rooted))
+			k := rnd.Range(2, n-3)
+			b[k], b[k+1] = '/', '/'
+			add(string(b), "boundary-mid")
+		}
+	}
+	// malformed stream: arbitrary bytes (NUL, 0xff, controls) mixed with '/' and '.'
+	nmal := 400
+	if tier == "thorough" {
+		nmal = 4000
+	}
+	for i := 0; i < nmal; i++ {
+		n := rnd.Range(1, 24)
+		if rnd.Pct(10) {
+			n = rnd.Range(125, 132)
+		}
+		b := make([]byte, n)
+		for j := range b {
+			switch rnd.Intn(6) {
+			case 0, 1:
+				b[j] = '/'
+			case 2, 3:
+				b[j] = '.'
+			case 4:
+				b[j] = byte('a' + rnd.Intn(3))
+			default:
+				b[j] = byte(rnd.Intn(256))
+			}
+		}
+		add(string(b), "malformed-bytes")
+	}
 	if len(st.Samples) == 0 {
 		st.Samples = append(st.Samples, "CleanPath(\"/a/../b/.\") = "+hx.Quote(fox.CleanPath("/a/../b/.")))
 	}
@@ -112,7 +209,8 @@ func main() {
 	st.Exhaustive = false
 	st.Extra = map[string]any{"exhaustive_scopes": []string{
 		fmt.Sprintf("all strings of length <= %d over {/ . a}", l3),
-		fmt.Sprintf("all strings of <= %d symbols over {/ . a %% é}", l5)}}
+		fmt.Sprintf("all strings of <= %d symbols over {/ . a %% é}", l5),
+		fmt.Sprintf("all '/'-joined sequences of <= %d elements over {'', '.', '..', 'a', 'ab'}, rooted and not rooted", lel)}}
 	hx.Fatal(cs.Write(out, shards))
 	hx.Fatal(st.Write(out))
 	fmt.Printf("c17: %d cases written to %s\n", cs.Len(), out)
